@@ -259,11 +259,45 @@ func (e *FuncEnc) selPath(v string, m jsonMember) string {
 	return v
 }
 
+// isTimeComponent: a defined type over time.Time that brings its own
+// MarshalJSON and UnmarshalJSON (a defined type does not have time.Time's).
+func isTimeComponent(t types.Type) bool {
+	n, ok := types.Unalias(t).(*types.Named)
+	if !ok || isNamed(n, "time", "Time") {
+		return false
+	}
+	st, ok := n.Underlying().(*types.Struct)
+	if !ok || st.NumFields() != 3 || st.Field(0).Name() != "wall" || st.Field(2).Name() != "loc" {
+		return false
+	}
+	return hasMethod(n, "MarshalJSON") && hasMethod(n, "UnmarshalJSON")
+}
+
+// ownCodecMissing: a defined type of the emitted package over a struct or slice
+// that has no JSON methods of its own is encoded by reflection (Go field names,
+// wrappers as objects): never what a schema describes.
+func ownCodecMissing(t types.Type, method string) bool {
+	n, ok := types.Unalias(t).(*types.Named)
+	if !ok || n.Obj().Pkg() == nil || n.Obj().Pkg().Path() != "emitted" {
+		return false
+	}
+	switch n.Underlying().(type) {
+	case *types.Struct, *types.Slice, *types.Map:
+		return !hasMethod(n, method)
+	}
+	return false
+}
+
 // goKindMatches: the Go type handed to the encoder produces the JSON type the
 // schema declares.
 func goKindMatches(t types.Type, s *RefSchema) bool {
 	if s == nil {
 		return true
+	}
+	t = types.Unalias(t)
+	if isTimeComponent(t) {
+		// `type X time.Time` with JSON methods of its own (a date / date-time component)
+		return s.Type == "string"
 	}
 	switch u := t.Underlying().(type) {
 	case *types.Basic:
@@ -319,6 +353,10 @@ func (jf *JSONFamily) valueOK(e *FuncEnc, a, v string, t types.Type, s *RefSchem
 }
 
 func (jf *JSONFamily) plainOK(e *FuncEnc, a, v string, t types.Type, s *RefSchema) (string, string) {
+	t = types.Unalias(t)
+	if ownCodecMissing(t, "MarshalJSON") && !isWrapperType(t) {
+		return "false", fmt.Sprintf("Go type %s has no MarshalJSON of its own (a defined type does not have the methods of its base type): it is encoded by reflection", t)
+	}
 	if !goKindMatches(t, s) {
 		st := ""
 		if s != nil {
@@ -1312,4 +1350,9 @@ func (jf *JSONFamily) installOneOfOuter(f *ssa.Function, jt *jsonType) {
 	}
 	c.Modifies = map[string]bool{}
 	jf.Em.W.Contracts[f.String()] = c
+}
+
+func isWrapperType(t types.Type) bool {
+	k, _ := wrapperOf(types.Unalias(t))
+	return k != ""
 }
